@@ -67,7 +67,6 @@ structure Env where
 
 def GAS_PER_BLOB : Nat := 131072
 def VERSIONED_HASH_VERSION_KZG : Nat := 1
-def BLOCKHASH_STORAGE_ADDRESS : Nat := 0x25a219378dad9b3503c8268c9ca836a52427a4fb
 
 /-- `Env::effective_gas_price` -/
 def Env.effectiveGasPrice (e : Env) : Nat :=
@@ -164,11 +163,10 @@ def validateAgainstState (e : Env) (spec : Nat) (callerCode : List Nat) (info : 
 /-- `load_accounts` + `set_precompiles`: the spec of the journal, the pre-warmed addresses, the access list -/
 def loadAccounts (e : Env) (spec : Nat) (w : World) : World :=
   let pre0 := w.js.preloaded
+  -- EIP-3651: warm COINBASE (no other address is pre-warmed: the early EIP-2935 draft address no longer is)
   let coinbaseWarm := enabled spec GasCalc.SpecId.SHANGHAI
-  let historyWarm := enabled spec GasCalc.SpecId.PRAGUE
   let js0 := w.js
-  let pre' : Nat → Bool := fun a =>
-    pre0 a || (coinbaseWarm && a == e.block.coinbase) || (historyWarm && a == BLOCKHASH_STORAGE_ADDRESS)
+  let pre' : Nat → Bool := fun a => pre0 a || (coinbaseWarm && a == e.block.coinbase)
   let js := { js0 with spec := spec, preloaded := pre' }
   let w := { w with js := js }
   -- load access list
